@@ -302,14 +302,25 @@ fn run_case(seed: u64, idx: u64, _tier: Tier, out: &mut CaseOut) {
         }
         if rng.below(100) < 4 {
             let u = e.get_attr("data-u").unwrap().to_string();
-            let (style, none) = match rng.below(5) {
-                0 => (*rng.pick(&["height:0;overflow:hidden", "overflow:hidden;height:0"]), true),
-                1 => (*rng.pick(&["max-height: 0; overflow-y: hidden", "overflow-y: hidden; max-height: 0"]), true),
+            // forms of the zero-height idiom that do not hide: no overflow:hidden, a
+            // non-zero or automatic height, an overflow value other than hidden
+            const NOT_HIDING: [&str; 7] = [
+                "height:0",
+                "height:1px;overflow:hidden",
+                "height:0;overflow:visible",
+                "height:auto;overflow:hidden",
+                "max-height:0;overflow:scroll",
+                "overflow:hidden",
+                "height:0.5em;overflow-y:hidden",
+            ];
+            let (style, none) = match rng.below(6) {
+                0 => (*rng.pick(&["height:0;overflow:hidden", "overflow:hidden;height:0", "height:0px;overflow:hidden", "height: 0.0em; overflow: hidden"]), true),
+                1 => (*rng.pick(&["max-height: 0; overflow-y: hidden", "overflow-y: hidden; max-height: 0", "max-height:0pt;overflow:hidden", "height:0in;overflow-y:hidden"]), true),
                 2 if competing => ("display: block", false),
-                3 => ("height:0", false), // not hidden: no overflow:hidden
+                3 | 4 => (*rng.pick(&NOT_HIDING), false),
                 _ => ("display:none", true),
             };
-            if style == "height:0" {
+            if NOT_HIDING.contains(&style) {
                 e.set_attr("style", style);
                 return;
             }
